@@ -864,3 +864,20 @@ func argInCallerFrame(v ssa.Value, steps []originStep) string {
 	}
 	return describe(v)
 }
+
+// firstPos: position of the first instruction of b that has one.
+func firstPos(b *ssa.BasicBlock) token.Pos {
+	for _, in := range b.Instrs {
+		if in.Pos().IsValid() {
+			return in.Pos()
+		}
+	}
+	for _, s := range b.Succs {
+		for _, in := range s.Instrs {
+			if in.Pos().IsValid() {
+				return in.Pos()
+			}
+		}
+	}
+	return token.NoPos
+}
